@@ -491,10 +491,12 @@ func ruleAddImport(c *Ctx, r *Repo, rule string) {
 			if call, ok := ie.Index.(*ast.CallExpr); ok && strings.HasSuffix(calleeName(info, call), "template.Package).Qualifier") {
 				// <the new package>.Qualifier(), evaluated after the alias was set
 				if sel, ok := call.Fun.(*ast.SelectorExpr); ok {
-					if ue, ok := as.Rhs[0].(*ast.UnaryExpr); ok && ue.Op == token.AND {
-						if a, ok := ue.X.(*ast.Ident); ok && isObj(info, sel.X, info.Uses[a]) {
-							final = true
-						}
+					stored := ast.Unparen(as.Rhs[0])
+					if ue, ok := stored.(*ast.UnaryExpr); ok && ue.Op == token.AND {
+						stored = ast.Unparen(ue.X) // the package value, stored by address
+					}
+					if a, ok := stored.(*ast.Ident); ok && isObj(info, sel.X, info.Uses[a]) {
+						final = true
 					}
 				}
 			}
@@ -531,11 +533,55 @@ func ruleAddImport(c *Ctx, r *Repo, rule string) {
 			p := paths[0]
 			imp := "RECV.registry.addImport<(template.Registry).addImport>(ARG0, ARG1)"
 			add := p.CallsTo("MethodScope).AddName")
+			// the variable's own import table is filled either here (third parameter) or by the caller from the
+			// returned package
+			fillsParam := hasStep(p, "store ARG2[ARG1.Path<(template.TypesPackage).Path>()] = "+imp) == 1
+			returnsIt := p.Exit == "return" && len(p.Ret) == 1 && p.Ret[0] == imp
 			ok = len(add) == 1 && add[0].Args[0] == imp+".Qualifier<(template.Package).Qualifier>()" &&
-				hasStep(p, "store ARG2[ARG1.Path<(template.TypesPackage).Path>()] = "+imp) == 1 &&
+				(fillsParam || returnsIt) &&
 				hasStep(p, "store RECV.imports[ARG1.Path<(template.TypesPackage).Path>()] = "+imp) == 1
+			if ok && returnsIt && !fillsParam {
+				// every caller stores the result under that same package's path
+				aObj := info.Defs[a.Name]
+				for _, g := range pkgFuncDecls(tp) {
+					gc := newFuncCanon(info, g)
+					ast.Inspect(g.Body, func(n ast.Node) bool {
+						call, isCall := n.(*ast.CallExpr)
+						if !isCall || len(call.Args) != 2 || !sameFunc(info.Uses[selIdent(call.Fun)], aObj) {
+							return true
+						}
+						stored := false
+						ast.Inspect(g.Body, func(m ast.Node) bool {
+							if as, isAs := m.(*ast.AssignStmt); isAs && len(as.Lhs) == 1 && len(as.Rhs) == 1 && ast.Unparen(as.Rhs[0]) == ast.Expr(call) {
+								if ie, isIdx := ast.Unparen(as.Lhs[0]).(*ast.IndexExpr); isIdx && stripRes(gc.E(ie.Index)) == stripRes(gc.E(call.Args[1]))+".Path()" {
+									stored = true
+								}
+							}
+							return true
+						})
+						c.Check(stored, rule, "MethodScope.addImport|caller-stores|"+g.Name.Name, r.Pos(call.Pos()), "the returned package is stored under its path in the variable's imports", g.Name.Name+" does not store the package returned by the scope's addImport under that package's own path: the variable's qualifier table misses it")
+						return true
+					})
+				}
+			}
 		}
 		c.Check(ok, rule, "MethodScope.addImport|bookkeeping", r.Pos(a.Pos()), "the registry's package is stored under the package path and its qualifier becomes a visible name", "MethodScope.addImport does not store the registry's package under pkg.Path() in both maps and make its qualifier a visible name")
+		// only the scope's addImport (and the registry itself) may ask the registry for an import: any other
+		// caller would add a qualifier to the file without making it a visible name of the method scope
+		if ra := FuncDecl(tp, "Registry.addImport"); ra != nil {
+			raObj := info.Defs[ra.Name]
+			for _, g := range pkgFuncDecls(tp) {
+				if g == a || g.Recv != nil && strings.HasSuffix(types.ExprString(g.Recv.List[0].Type), "Registry") {
+					continue
+				}
+				ast.Inspect(g.Body, func(n ast.Node) bool {
+					if call, isCall := n.(*ast.CallExpr); isCall && sameFunc(info.Uses[selIdent(call.Fun)], raObj) {
+						c.Fail(rule, "Registry.addImport|caller|"+g.Name.Name, r.Pos(call.Pos()), g.Name.Name+" asks the registry for an import directly: the package gets a qualifier in the file, but the qualifier is not recorded as a visible name of the method scope, so a variable may be given the same name")
+					}
+					return true
+				})
+			}
+		}
 	}
 }
 
@@ -706,4 +752,15 @@ func ruleImportsListing(c *Ctx, r *Repo, rule string) {
 		}
 		c.Check(ok, rule, "PkgQualifier|lookup", r.Pos(pq.Pos()), "qualifier of the element with that path, else an error", "Packages.PkgQualifier does not return the qualifier of the element whose Path() equals the argument (and an error otherwise)")
 	}
+}
+
+// selIdent: the identifier naming the called function or method (nil for anything else).
+func selIdent(fun ast.Expr) *ast.Ident {
+	switch x := ast.Unparen(fun).(type) {
+	case *ast.Ident:
+		return x
+	case *ast.SelectorExpr:
+		return x.Sel
+	}
+	return nil
 }
